@@ -300,6 +300,9 @@ def _test_mutual_information(
     ndarray[DFIELD_t, ndim=2, mode='c'] surrogates not None,
     int N, int n_time, int n_bins):
 
+    if n_bins < 1:
+        raise ValueError("n_bins must be a positive integer.")
+
     cdef:
         #  Get common range for all histograms
         DFIELD_t range_min = np.min((original_data.min(), surrogates.min()))
